@@ -202,3 +202,11 @@ Section Hermite.
 End Hermite.
 
 (* TODO (not done): the equations assembled by buildInterpolation are the C2 / natural end conditions; Thomas algorithm. *)
+
+Lemma lin_nodes e p0 l1 pb l2 : increasing (p0 :: l1 ++ pb :: l2) ->
+  (exists d, lin_R e (p0 :: l1 ++ pb :: l2) (fst p0) = Some (snd p0, d)) /\
+  (exists d, lin_R e (p0 :: l1 ++ pb :: l2) (fst pb) = Some (snd pb, d)).
+Proof.
+  intros H. split; [|apply lin_other_node; exact H].
+  destruct (tab_shape p0 pb l1 l2) as [p1 [r [Et _]]]. rewrite Et. apply lin_first_node.
+Qed.
